@@ -86,7 +86,50 @@ type Slicer struct {
 	// parameters of those helpers are followed to the arguments of their call sites.
 	Root *ssa.Function
 
+	// Shared: also go through small helpers that several functions use (context-
+	// sensitively: their parameters are the arguments of the call being followed).
+	Shared bool
+
 	entered map[*ssa.Function]bool
+	bind    map[*ssa.Parameter]ssa.Value // parameters of a small shared helper, while the slice is inside it
+}
+
+// sharedHelper: a call of a small helper of the repository that several functions use
+// (valueOr(field, def), commandFace(params, inFace)): the slice goes through its returns
+// with its parameters bound to the arguments of THIS call.
+func (s *Slicer) sharedHelper(cl *ssa.Call, idx int, via []string, depth int, out *[]Leaf, n int) bool {
+	cal := cl.Call.StaticCallee()
+	if !s.Shared || cal == nil || cal.Blocks == nil || !helperOK(cal) || cal == cl.Parent() || len(cal.Params) != len(cl.Call.Args) || n > 40 {
+		return false
+	}
+	cnt := 0
+	Instrs(cal, func(ssa.Instruction) { cnt++ })
+	if cnt > 40 {
+		return false
+	}
+	if s.bind == nil {
+		s.bind = map[*ssa.Parameter]ssa.Value{}
+	}
+	var bound []*ssa.Parameter
+	for i, p := range cal.Params {
+		if _, dup := s.bind[p]; dup {
+			return false // recursive use
+		}
+		s.bind[p] = cl.Call.Args[i]
+		bound = append(bound, p)
+	}
+	nRet := 0
+	seenH := map[string]bool{}
+	Instrs(cal, func(in ssa.Instruction) {
+		if r, ok := in.(*ssa.Return); ok && idx < len(r.Results) && in.Block() != cal.Recover {
+			nRet++
+			s.walk(r.Results[idx], via, depth, seenH, out, n+1)
+		}
+	})
+	for _, p := range bound {
+		delete(s.bind, p)
+	}
+	return nRet > 0
 }
 
 func (s *Slicer) enter(f *ssa.Function) {
@@ -271,6 +314,9 @@ func (s *Slicer) walk(v ssa.Value, via []string, depth int, seen map[string]bool
 					return
 				}
 			}
+			if s.sharedHelper(t, x.Index, via, depth, out, n) {
+				return
+			}
 			s.walk(x.Tuple, prepend(via, fmt.Sprintf("#%d", x.Index)), depth, seen, out, n+1)
 		default:
 			s.walk(x.Tuple, prepend(via, fmt.Sprintf("#%d", x.Index)), depth, seen, out, n+1)
@@ -318,8 +364,15 @@ func (s *Slicer) walk(v ssa.Value, via []string, depth int, seen map[string]bool
 				return
 			}
 		}
+		if x.Call.Signature().Results().Len() == 1 && s.sharedHelper(x, 0, via, depth, out, n) {
+			return
+		}
 		leaf("call")
 	case *ssa.Parameter:
+		if a, ok := s.bind[x]; ok {
+			s.walk(a, via, depth, seen, out, n+1)
+			return
+		}
 		// the parameter of a private helper is the argument of its call site — when the
 		// slice entered the helper through that call, or when the helper belongs to the
 		// body of the rule's root function (Root)
